@@ -13,7 +13,7 @@
 EXTENDS Naturals, Sequences, FiniteSets, TLC, Json
 
 Kinds == {"file", "dir", "symdir", "symfile", "magic"}     \* ordinary procfs symlinks by the type of their target
-Decos == {"", "/", "/.", "/..", "/nx-child", "./"}
+Decos == {"", "/", "/.", "/..", "/nx-child", "./", "/..NUL"}    \* "/..NUL": a ".." component followed by a NUL byte (Rust API only)
 Ops   == {"open_rdonly", "open_path", "open_dir", "open_follow_path", "open_follow_dir", "readlink", "open_creat", "open_follow_creat", "open_tmpfile"}
 
 \* does the decorated path still name the entry as its final component?
@@ -21,6 +21,7 @@ Final(d) == d \in {"", "./"}
 
 Expect(k, d, o) ==
     IF o \in {"open_creat", "open_follow_creat", "open_tmpfile"} THEN "InvalidArgument"          \* creation flags refused up front
+    ELSE IF d = "/..NUL" THEN "ERR"          \* never a truncated path: an interior NUL is an error in both resolvers
     ELSE IF d = "/.." THEN (IF k \in {"dir", "symdir"} THEN "ERR-or-inside" ELSE "ERR")
          \* ".." never leaves procfs: the emulated resolver refuses it outright (EXDEV); openat2 with
          \* RESOLVE_BENEATH allows "dir/.." because it stays beneath the base; through a non-directory it is an error
